@@ -431,3 +431,35 @@ func writePieces(w io.Writer, pieces [][]byte) error {
 	}
 	return nil
 }
+
+// ---- results handed to the caller stay the caller's ----
+// retained: the byte slices an entry point returned in earlier evaluations of this process, with a private copy taken
+// at the time. A later call of the library must not change them (a result aliasing a recycled or shared buffer does).
+type retainedResult struct {
+	what string
+	live []byte
+	copy []byte
+}
+
+var retained []retainedResult
+
+func retain(what string, b []byte) {
+	if len(b) == 0 {
+		return
+	}
+	if len(retained) >= 4 {
+		retained = retained[1:]
+	}
+	retained = append(retained, retainedResult{what, b, append([]byte{}, b...)})
+}
+
+// retainedChanged reports (once) an earlier result whose bytes have changed since it was returned
+func retainedChanged() *Failure {
+	for i, r := range retained {
+		if !bytes.Equal(r.live, r.copy) {
+			retained = append(retained[:i:i], retained[i+1:]...)
+			return &Failure{Kind: "oracle", Key: "earlier-result-overwritten", Desc: fmt.Sprintf("the %d bytes returned earlier by %s were changed in place by a later call of the library", len(r.copy), r.what)}
+		}
+	}
+	return nil
+}
